@@ -92,6 +92,78 @@ type Clause struct {
 	Src   string // file:line
 	Aux   bool
 	Props []string // optional property override for this clause
+	// lemmas proved by induction: `induct v > low` — the obligation is the
+	// induction step ((v > low ==> body[v-1/v]) ==> body); well-founded because
+	// v is bounded below by low, which must not mention v
+	InductVar string
+	InductLow Expr
+}
+
+// Subst replaces free occurrences of identifier name in e by repl.
+func Subst(e Expr, name string, repl Expr) Expr {
+	switch x := e.(type) {
+	case *Ident:
+		if x.Name == name {
+			return repl
+		}
+		return x
+	case *Call:
+		n := &Call{Fn: x.Fn}
+		for _, a := range x.Args {
+			n.Args = append(n.Args, Subst(a, name, repl))
+		}
+		return n
+	case *Sel:
+		return &Sel{Subst(x.X, name, repl), x.Name}
+	case *Index:
+		return &Index{Subst(x.X, name, repl), Subst(x.I, name, repl)}
+	case *Unary:
+		return &Unary{x.Op, Subst(x.X, name, repl)}
+	case *Binary:
+		return &Binary{x.Op, Subst(x.L, name, repl), Subst(x.R, name, repl)}
+	case *Cond:
+		return &Cond{Subst(x.C, name, repl), Subst(x.A, name, repl), Subst(x.B, name, repl)}
+	case *Quant:
+		for _, v := range x.Vars {
+			if v.Name == name {
+				return x
+			}
+		}
+		n := &Quant{Forall: x.Forall, Vars: x.Vars, Body: Subst(x.Body, name, repl)}
+		for _, tr := range x.Triggers {
+			var nt []Expr
+			for _, t := range tr {
+				nt = append(nt, Subst(t, name, repl))
+			}
+			n.Triggers = append(n.Triggers, nt)
+		}
+		return n
+	}
+	return e
+}
+
+// InductionStep builds the induction-step form of a universally quantified
+// lemma body for `induct v > low`.
+func InductionStep(c *Clause) (Expr, error) {
+	q, ok := c.Expr.(*Quant)
+	if !ok || !q.Forall {
+		return nil, fmt.Errorf("%s: induct needs a forall lemma", c.Src)
+	}
+	found := false
+	for _, v := range q.Vars {
+		if v.Name == c.InductVar {
+			found = true
+		}
+	}
+	if !found {
+		return nil, fmt.Errorf("%s: induct variable %s is not bound by the lemma", c.Src, c.InductVar)
+	}
+	if Subst(c.InductLow, c.InductVar, &IntLit{"0"}).String() != c.InductLow.String() {
+		return nil, fmt.Errorf("%s: the lower bound of induct must not mention %s", c.Src, c.InductVar)
+	}
+	prev := &Binary{"-", &Ident{c.InductVar}, &IntLit{"1"}}
+	ih := &Binary{"==>", &Binary{">", &Ident{c.InductVar}, c.InductLow}, Subst(q.Body, c.InductVar, prev)}
+	return &Quant{Forall: true, Vars: q.Vars, Triggers: q.Triggers, Body: &Binary{"==>", ih, q.Body}}, nil
 }
 
 // SpecFunc is a spec function (uninterpreted when Body == nil) or a macro.
@@ -147,4 +219,41 @@ type File struct {
 	Lemmas    []*Clause
 	Contracts []*FuncContract
 	Imports   map[string]string // alias -> import path (for type names in @H refs)
+	Counters  []Counter         // `counter <ghost> <func>`: call counters (instrumentation ghosts)
+}
+
+// Counter declares an Int ghost that is incremented immediately before every
+// call of Func (key "<pkgpath>::<Name>", interface methods "<pkgpath>::iface T.M").
+type Counter struct {
+	Ghost string
+	Func  string
+	OnOK  bool // `okcounter`: incremented after the call, iff the callee's error result is nil
+}
+
+// Idents collects the identifier names occurring in e (bound or free).
+func Idents(e Expr, out map[string]bool) {
+	switch x := e.(type) {
+	case *Ident:
+		out[x.Name] = true
+	case *Call:
+		for _, a := range x.Args {
+			Idents(a, out)
+		}
+	case *Sel:
+		Idents(x.X, out)
+	case *Index:
+		Idents(x.X, out)
+		Idents(x.I, out)
+	case *Unary:
+		Idents(x.X, out)
+	case *Binary:
+		Idents(x.L, out)
+		Idents(x.R, out)
+	case *Cond:
+		Idents(x.C, out)
+		Idents(x.A, out)
+		Idents(x.B, out)
+	case *Quant:
+		Idents(x.Body, out)
+	}
 }
